@@ -210,7 +210,7 @@ def job(j):
     SCRATCH = scratch
     if scratch not in sys.path:
         sys.path.insert(0, scratch)
-    return tag, core.eval_cases(comp, cases, impl)
+    return tag, core.eval_cases(comp, cases, impl, repeat=60)
 
 
 def run(out):
